@@ -5,7 +5,7 @@
    issued from directory state `s`: each prefix, plus each byte-granular tear of the next raw write (A1, B = 1).
    `read_path s p` = what a fresh reader obtains for location p (follows a symlink; RMissing / RData bytes).
    `file_store_ops s r` = the operations FileCache.store_tile issues for request r in state s
-   (write_atomic: create temp, write, rename; link modes: unlink, symlink / link).  *)
+   (write_atomic: create temp, write, rename; link modes: symlink / link under a temp name, rename).  *)
 From Coq Require Import ZArith List Bool Arith.
 Import ListNotations.
 From MP Require Import Base Bytes Crash Crash_proofs.
@@ -32,26 +32,29 @@ Proof. exact write_atomic_completes. Qed.
 (* ---- FileCache.store_tile, all three link modes, every prior state and crash point.
    The address being stored reads (a) its previous content, (b) the complete new content (the tile's bytes, or
    the bytes of the existing single colour file it is linked to), or (c) missing - and (c) only if it was
-   missing before (then (a)), or the address was a symlink being replaced, or the store goes through
-   _store_single_color_tile.  `req_ok` = the temp suffix is a decimal number, the tile location is not a temp
-   name, the location does not link to a temp name or to a missing colour file, the colour file is not a link. *)
+   missing before (then (a)), or the address was a *symlink* that _store replaces by a regular tile file
+   (FileCache._store unlinks a symlink before write_atomic: needed for the non-POSIX branch of write_atomic, which
+   opens the target in place and would otherwise write through the link into the shared colour file).  Stores
+   that go through _store_single_color_tile never expose "missing" for an address that had content: the link is
+   created under a temp name and renamed over the tile.  `req_ok` = the temp suffixes are decimal numbers, the
+   tile location and the colour file are not temp names, the location does not link to a temp name or to a
+   missing colour file, the colour file is not a link. *)
 Theorem crash_safe_file_store :
   forall s r s',
     req_ok s r ->
     In s' (crash_states s (file_store_ops s r)) ->
     read_path s' (rq_loc r) = read_path s (rq_loc r) \/
     read_path s' (rq_loc r) = RData (new_content s r) \/
-    (read_path s' (rq_loc r) = RMissing /\ (is_link s (rq_loc r) = true \/ linked_store r = true)).
+    (read_path s' (rq_loc r) = RMissing /\ is_link s (rq_loc r) = true /\ linked_store r = false).
 Proof. exact file_store_target. Qed.
 
-(* The last alternative cannot be dropped for link stores over a regular file: a regular tile replaced by a
-   single colour link is missing between os.unlink and os.symlink (finding, see proposed_fixes/C06-*.md).
-   This is the `_refuted` witness of the strict reading "missing only if it had none before or a link was being replaced". *)
-Theorem regular_tile_replaced_by_link_refuted :
-  exists s r s', req_ok s r /\ In s' (crash_states s (file_store_ops s r)) /\
-                 is_link s (rq_loc r) = false /\ read_path s (rq_loc r) = RData [1; 2; 3] /\
-                 read_path s' (rq_loc r) = RMissing.
-Proof. exact regular_replaced_by_link_missing_witness. Qed.
+(* The formerly failing input (finding file-link:regular-tile-replaced-by-link:missing, repaired): a regular tile
+   replaced by a single colour link reads old, old, new in the three crash states. *)
+Theorem regular_tile_replaced_by_link_never_missing_example :
+  file_store_ops ex_fs ex_req_link = [OSymlink ex_sc (tmp_of ex_p [53]); ORename (tmp_of ex_p [53]) ex_p] /\
+  map (fun s' => read_path s' ex_p) (crash_states ex_fs (file_store_ops ex_fs ex_req_link)) =
+  [RData [1; 2; 3]; RData [1; 2; 3]; RData [7; 7]].
+Proof. exact regular_replaced_by_link_states_example. Qed.
 
 (* ---- tiles not being written are unaffected: whatever a list of operations does, an address whose path and
    link target it does not name reads the same in every crash state ... *)
@@ -62,11 +65,11 @@ Theorem crash_others_unaffected_generic :
     read_path s' q = read_path s q.
 Proof. exact crash_others_unaffected. Qed.
 
-(* ... and FileCache.store_tile names only the tile location, the colour file and their two temp names. *)
+(* ... and FileCache.store_tile names only the tile location, the colour file and their temp names. *)
 Theorem file_store_others_unaffected :
   forall s r s' q,
     In s' (crash_states s (file_store_ops s r)) ->
-    let T := [rq_loc r; tmp_of (rq_loc r) (rq_sfx r)] ++
+    let T := [rq_loc r; tmp_of (rq_loc r) (rq_sfx r); tmp_of (rq_loc r) (rq_sfx2 r)] ++
              match rq_color r with Some sc => [sc; tmp_of sc (rq_sfx r)] | None => [] end in
     ~ In q T -> (forall x, s q = Some (NLink x) -> ~ In x T) ->
     read_path s' q = read_path s q.
@@ -77,7 +80,8 @@ Theorem file_store_same_colour_links_unaffected :
   forall s r s' q sc,
     In s' (crash_states s (file_store_ops s r)) ->
     rq_color r = Some sc -> exists_ s sc = true ->
-    q <> rq_loc r -> sc <> rq_loc r -> s q = Some (NLink sc) ->
+    q <> rq_loc r -> q <> tmp_of (rq_loc r) (rq_sfx2 r) ->
+    sc <> rq_loc r -> sc <> tmp_of (rq_loc r) (rq_sfx2 r) -> s q = Some (NLink sc) ->
     rq_mode r <> LNone ->
     read_path s' q = read_path s q.
 Proof. exact file_store_same_colour_link_kept. Qed.
